@@ -240,6 +240,11 @@ def chain(e: ast.AST, is_leaf: Callable[[ast.AST], bool], resolve_call: Callable
                 leaf = rec(n.left.left)
                 ops.extend([f"and:{bit}", "bool"])
                 return leaf
+        if isinstance(n, ast.Compare) and len(n.ops) == 1 and isinstance(n.ops[0], (ast.Eq, ast.NotEq)) and isinstance(n.comparators[0], ast.Constant) and \
+                type(n.comparators[0].value) is int:
+            leaf = rec(n.left)
+            ops.append(f"{'eq' if isinstance(n.ops[0], ast.Eq) else 'ne'}:{n.comparators[0].value}")      # the whole value compared with one constant
+            return leaf
         raise Unknown(f"unmodelled wrapper {type(n).__name__}: {ast.unparse(n)[:60]}")
 
     leaf = rec(e)
